@@ -4,6 +4,7 @@ Index geometry of the skyline storage: the segments `[ptr[j], ptr[j+1])` are dis
 `L`/`U` changes exactly one entry of the dense embedding `Ld`/`Ud`.
 -/
 namespace Amgcl
+open Arr2
 namespace Skyline
 open Finset
 variable {K : Type} [Field K]
